@@ -195,7 +195,19 @@ def do_prog(script):
     out = []
     walk_ir(prog.setup_body, out)
     walk_ir(prog.loop_body, out)
-    return {"status": "ok", "obs": out}
+    # module level: the declared globals (name, initialiser text) and the names assigned by the nodes that stay at the
+    # top level of setup() - a first assignment hoisted into a static initialiser leaves no node there
+    tops = []
+    for n in prog.setup_body:
+        t = type(n).__name__
+        if t == "VarAssign":
+            tops.append(str(n.name))
+        elif t == "ExprStmt" and str(n.expr).startswith("__redu_list_assign("):
+            tops.append(str(n.expr)[len("__redu_list_assign("):].split(",")[0].strip())
+        elif t == "VarDecl":
+            tops.append("decl:" + str(n.name))
+    globs = [[str(g.name), str(g.expr)] for g in (prog.global_decls or []) if type(g).__name__ == "VarDecl"]
+    return {"status": "ok", "obs": out, "tops": tops, "globals": globs}
 
 
 class _StopLoops(BaseException):
